@@ -3,7 +3,7 @@
 (* ("codec" events, DESIGN.md Appendix B) against the model, one event per      *)
 (* step.  Every event is judged for every property it bears on; non-ok verdicts *)
 (* are printed and the run continues with the next event.                       *)
-EXTENDS KnownDeviations, Json
+EXTENDS KnownDeviations, PlencDescriptor, Json
 
 CONSTANTS TraceFile, EnvFile
 EnvDef == JsonDeserialize(EnvFile)
@@ -13,7 +13,7 @@ VARIABLES l, bad
 vars == <<l, bad>>
 
 Crashed(e) == e.out.kind \in {"fatal", "timeout", "oom"}
-McCfg(e) == [protoTime |-> e.cfg.protoTime, protoArrays |-> e.cfg.protoArrays]
+McCfg(e) == [protoTime |-> e.cfg.protoTime, protoArrays |-> e.cfg.protoArrays, nullProto |-> FALSE]
 
 \* ---- C01: value round trip ----
 JudgeC01(e, cfg, T) ==
@@ -71,10 +71,105 @@ JudgeC11(e, cfg, T) ==
   IF Crashed(e) \/ e.out.panic \/ e.out.merr # "" THEN "ok"
   ELSE IF Eq(T, e.out.srcAfter, e.v) THEN "ok" ELSE "source-modified"
 
+\* ---- C09: explicit presence ----
+\* zero-valued plain fields leave no frame, at any struct nesting reachable through struct / pointer fields
+RECURSIVE NoZeroFrames(_, _, _, _)
+PlainKind(T0) == Resolve(T0).k \in {"bool", "int", "uint", "f32", "f64", "string", "bytes", "time", "slice"}
+NoZeroFrames(cfg, T0, v, b) == LET T == Resolve(T0) IN
+  IF T.k # "struct" THEN TRUE
+  ELSE LET fr == Frames(b) IN
+       fr.ok => \A i \in 1..Len(T.f) :
+          LET F == T.f[i]  hits == {j \in 1..Len(fr.x) : fr.x[j].idx = F.i} IN
+          ~F.enc \/
+          IF PlainKind(F.t) /\ Omit(cfg, F.t, v[i]) THEN hits = {}
+          ELSE IF Resolve(F.t).k = "struct" /\ hits # {}
+               THEN NoZeroFrames(cfg, F.t, v[i], fr.x[CHOOSE j \in hits : TRUE].pay)
+               ELSE TRUE
+PresencePath(p) == \E i \in 1..Len(p) : SubSeq(p, i, i) \in {"*", "?"}
+JudgeC09(e, cfg, T) ==
+  IF Crashed(e) \/ e.out.panic \/ e.out.merr # "" \/ e.out.uerr # "" THEN "ok"        \* C01 reports these
+  ELSE LET d == Diff(T, e.out.back, Norm(cfg, T, e.v, TRUE)) IN
+       IF d # "" /\ PresencePath(d) THEN "presence@" \o d
+       ELSE IF ~NoZeroFrames(cfg, T, e.v, e.out.bytes) THEN "zero-plain-field-encoded"
+       ELSE IF e.out.desc.have /\ DescDiff(DescOf(T, FALSE, 12), e.out.desc.d, TRUE, 12) = "explicit-presence" THEN "descriptor-flag"
+       ELSE "ok"
+
+\* ---- C14: the descriptor mirrors the type ----
+JudgeC14(e, cfg, T) ==
+  IF ~e.out.desc.have THEN "ok"
+  ELSE LET d == DescDiff(DescOf(T, FALSE, 12), e.out.desc.d, TRUE, 12) IN IF d = "" THEN "ok" ELSE "descriptor:" \o d
+
+\* ---- C12: proto-compatible mode ----
+\* the statement's precondition: map fields are tagged proto; null.Time keeps the default time codec (finding F19)
+RECURSIVE ProtoClean(_, _)
+ProtoClean(T0, fuel) == LET T == Resolve(T0) IN
+  fuel = 0 \/
+  CASE T.k = "map" -> T.proto /\ ProtoClean(T.key, fuel - 1) /\ ProtoClean(T.val, fuel - 1)
+    [] T.k \in {"ptr", "slice"} -> ProtoClean(T.e, fuel - 1)
+    [] T.k = "struct" -> \A i \in 1..Len(T.f) : ~T.f[i].enc \/ ProtoClean(T.f[i].t, fuel - 1)
+    [] T.k = "null" -> T.of # "time"
+    [] T.k \in {"jsonobj", "jsonarr", "bqtime"} -> FALSE
+    [] OTHER -> TRUE
+\* an independent protobuf reader walking the bytes along the message structure: only wire types 0,1,2,5,
+\* every nested message / Timestamp / map entry walks to its exact end with the right wire types
+RECURSIVE ProtoWalk(_, _, _, _), ProtoField(_, _, _, _)
+ProtoWalk(cfg, T0, b, fuel) == LET T == Resolve(T0) IN
+  IF fuel = 0 THEN "ok" ELSE
+  LET fr == ProtoFrames(b) IN
+  IF ~fr.ok THEN "not-protobuf"
+  ELSE LET res == [j \in 1..Len(fr.x) |->
+                    LET i == FirstIdx(T.f, fr.x[j].idx) IN
+                    IF i = 0 THEN "unknown-field" ELSE ProtoField(cfg, T.f[i].t, fr.x[j], fuel - 1)]
+           wrong == {j \in 1..Len(res) : res[j] # "ok"} IN
+       IF wrong = {} THEN "ok" ELSE res[CHOOSE j \in wrong : TRUE]
+ProtoField(cfg, F0, frame, fuel) == LET F == StripPtr(F0) IN
+  CASE F.k \in {"bool", "int", "uint"} -> IF frame.wt = WTVarInt THEN "ok" ELSE "scalar-wiretype"
+    [] F.k = "f64" -> IF frame.wt = WT64 THEN "ok" ELSE "scalar-wiretype"
+    [] F.k = "f32" -> IF frame.wt = WT32 THEN "ok" ELSE "scalar-wiretype"
+    [] F.k \in {"string", "bytes"} -> IF frame.wt = WTLength THEN "ok" ELSE "string-wiretype"
+    [] F.k = "null" -> ProtoField(cfg, NullBase(F.of), frame, fuel)
+    [] F.k = "time" -> IF frame.wt # WTLength THEN "time-wiretype"
+                       ELSE LET tf == ProtoFrames(frame.pay) IN
+                            IF ~tf.ok THEN "time-not-protobuf"
+                            ELSE IF \E j \in 1..Len(tf.x) : tf.x[j].idx \notin {1, 2} \/ tf.x[j].wt # WTVarInt THEN "timestamp-shape"
+                            ELSE IF cfg.protoTime /\ (\E j \in 1..Len(tf.x) : tf.x[j].idx = 2 /\ Len(tf.x[j].pay) > 5) THEN "nanos-not-plain-varint"
+                            ELSE "ok"
+    [] F.k = "struct" -> IF frame.wt # WTLength THEN "message-wiretype" ELSE ProtoWalk(cfg, F, frame.pay, fuel)
+    [] F.k = "slice" ->
+         LET E == StripPtr(F.e) IN
+         IF WT(cfg, F.e) = WTLength
+         THEN \* repeated: this frame is one element
+              IF frame.wt # WTLength THEN "repeated-wiretype" ELSE ProtoField(cfg, F.e, frame, fuel)
+         ELSE IF frame.wt = WTLength THEN "ok" ELSE "packed-wiretype"
+    [] F.k = "map" ->
+         IF frame.wt # WTLength THEN "map-entry-wiretype"
+         ELSE LET ef == ProtoFrames(frame.pay) IN
+              IF ~ef.ok THEN "map-entry-not-protobuf"
+              ELSE IF \E j \in 1..Len(ef.x) : ef.x[j].idx \notin {1, 2} THEN "map-entry-shape"
+              ELSE LET res == [j \in 1..Len(ef.x) |-> ProtoField(cfg, IF ef.x[j].idx = 1 THEN F.key ELSE F.val, ef.x[j], fuel - 1)]
+                       wrong == {j \in 1..Len(res) : res[j] # "ok"} IN
+                   IF wrong = {} THEN "ok" ELSE res[CHOOSE j \in wrong : TRUE]
+    [] OTHER -> "ok"
+JudgeC12(e, cfg, T) ==
+  IF Crashed(e) \/ e.out.panic \/ e.out.merr # "" THEN "ok"
+  ELSE IF ~(cfg.protoArrays /\ Resolve(T).k = "struct") THEN "ok"
+  ELSE LET crossOK == IF ~e.out.cross.have THEN "ok"
+                      ELSE IF e.out.cross.panic THEN "default-mode-decode-panic"
+                      ELSE IF e.out.cross.uerr # "" THEN "default-mode-decode-error"
+                      ELSE IF ~Eq(T, e.out.cross.back, Norm(cfg, T, e.v, TRUE)) THEN "default-mode-decode-value@" \o Diff(T, e.out.cross.back, Norm(cfg, T, e.v, TRUE))
+                      ELSE "ok" IN
+       IF crossOK # "ok" THEN crossOK
+       ELSE IF cfg.protoTime /\ ProtoClean(T, 8) THEN ProtoWalk(cfg, T, e.out.bytes, 8)
+       ELSE IF cfg.protoTime /\ AnySub(T, IsNullTime, 8) /\ ~EncMatches([cfg EXCEPT !.nullProto = TRUE], T, e.v, e.out.bytes)
+            THEN \* a valid null.Time is not a protobuf Timestamp with plain varints in ProtoCompatibleTime mode
+                 IF "F19" \in OpenFindings /\ EncMatches(cfg, T, e.v, e.out.bytes) THEN "known:F19" ELSE "null-time-not-proto"
+       ELSE "ok"
+
 Judge(e) ==
   LET cfg == McCfg(e)  T == Bake(e.T, "") IN
   << <<"C01", JudgeC01(e, cfg, T)>>, <<"C02", JudgeC02(e, cfg, T)>>,
-     <<"C05", JudgeC05(e, cfg, T)>>, <<"C11", JudgeC11(e, cfg, T)>> >>
+     <<"C05", JudgeC05(e, cfg, T)>>, <<"C11", JudgeC11(e, cfg, T)>>,
+     <<"C09", JudgeC09(e, cfg, T)>>, <<"C14", JudgeC14(e, cfg, T)>>, <<"C12", JudgeC12(e, cfg, T)>> >>
 
 NonOk(vs) == {i \in 1..Len(vs) : vs[i][2] # "ok"}
 
